@@ -10,4 +10,5 @@ EXPLANATION = ""
 LEVEL_TEXT = "Deductive proof of AbstractFieldFormat.validated and its guards against an abstract validated_value (all field types at once)."
 LEVEL_NOTE = "Trusts the pyvc encoding (cross-checked natively each run), z3/cvc5, A-STR (str.strip axiom, audited)."
 TECHNIQUE = "contract-based deductive verification: VCs generated from the ast of the real functions, discharged by z3/cvc5"
-UNITS = [ST.unit_field_class_structure(), F.unit_validated(), F.unit_validate_characters(), F.unit_validate_empty(), F.unit_validate_length(), R.unit_range_validate()]
+from contracts import fieldtypes as FT
+UNITS = [FT.unit_text_init(), FT.unit_choice_init(), FT.unit_constant_init(), FT.unit_integer_init(), FT.unit_datetime_init(), FT.unit_decimal_init(), FT.unit_datetime_regex_pattern(), ST.unit_field_class_structure(), F.unit_validated(), F.unit_validate_characters(), F.unit_validate_empty(), F.unit_validate_length(), R.unit_range_validate()]
